@@ -91,6 +91,13 @@ func blockCfg() Cfg {
 	return c
 }
 
+// oddBlockCfg: a DataFileSize that is not a multiple of the 32 KiB block and smaller than the 3-block value
+func oddBlockCfg() Cfg {
+	c := defaultCfg
+	c.FileSize = 40001
+	return c
+}
+
 // bothPools adds, for every configuration, the variant in which sync.Pool hands back the oldest object first.
 func bothPools(cs ...Cfg) []Cfg {
 	out := append([]Cfg{}, cs...)
@@ -158,7 +165,7 @@ func init() {
 					{Name: "same-offset-d6", Cfgs: []Cfg{blockCfg()}, Keys: keysAB, Alpha: sameOffsetAlphabet, Depth: 6, Dev: 6, Run: runC01},
 					{Name: "tiny-d3b2", Cfgs: tinyCfgs(), Keys: keysAB, Alpha: tinyAlphabet, Depth: 3, Dev: 2, Run: runC01},
 					{Name: "tiny-d4b2", Cfgs: bothPools(defaultCfg), Keys: keysAB, Alpha: tinyAlphabet, Depth: 4, Dev: 2, Run: runC01},
-					{Name: "block-d3b2", Cfgs: bothPools(blockCfg()), Keys: keysAB, Alpha: blockAlphabet, Depth: 3, Dev: 2, Run: runC01},
+					{Name: "block-d3b2", Cfgs: append(bothPools(blockCfg()), oddBlockCfg()), Keys: keysAB, Alpha: blockAlphabet, Depth: 3, Dev: 2, Run: runC01},
 					deleteBatchLevel(runC01, 3),
 				})
 			}
